@@ -31,6 +31,9 @@ from spec import tables as spec
 FILES = ['pytableaux/logics/__init__.py']
 
 
+SPECIAL = ['Lc:LKMaLc', 'Mb:LMa:Ma:b', 'LLc:LKMaLc', 'Mb:LMa:b', 'SxFx:Fm', 'Ma:LMa', 'b:La:LMb']
+
+
 def pairs():
     from pytableaux.logics import registry
     registry.import_all()
@@ -161,7 +164,7 @@ def run(ctx):
     props = fam.prop(0) + fam.prop(1)
     units = []
     for (L, Wk) in ps:
-        sel = fam.select(pool, 30 if ctx.quick else None, ctx.seed + 21, L + Wk)
+        sel = fam.select(pool, 30 if ctx.quick else None, ctx.seed + 21, L + Wk) + SPECIAL
         psel = fam.select(props, 60 if ctx.quick else None, ctx.seed + 22, L + Wk)
         if not ctx.quick:
             psel += fam.select(fam.prop(2), 1500, ctx.seed + 23, L + Wk)
@@ -207,7 +210,7 @@ def run(ctx):
         declared_pairs=len(ps), lemma_pairs_discharged=lemma_ok, prover_runs=runs,
         arguments_valid_in_weaker=vw,
         bounds=dict(value_sets='size <= 3 for generalised connectives', worlds=3,
-                    arguments='30 family + 60 propositional per pair' if ctx.quick else 'all family + P(0..1) + 1500 of P(2)'),
+                    arguments='30 family + 7 fixed + 60 propositional per pair' if ctx.quick else 'all family + P(0..1) + 1500 of P(2)'),
         solver=stats.asdict(),
         functions_executed=['Meta.extension_of (registry)', 'Model.truth_function (extracted tables)',
                             'Tableau.build in both logics of each pair'],
